@@ -739,6 +739,7 @@ func (g *genCtx) retryInvoke(s, fn int) {
 	*f = src
 	f.ID, f.DurNs, f.Info = id, dur, info
 	f.Cat = -1 // a catalogue function is bound to one spec per run: the retry uses a dynamic stub
+	f.Params = deAnon(f.Params)
 	g.addOp(Op{Kind: OpInvoke, Scope: s, Fn: f.ID, Retry: true})
 }
 
